@@ -1,7 +1,10 @@
 (* Lemmas about Model/ConverterState.v (property C04). *)
-From Coq Require Import List Arith ZArith Bool String Lia.
-From PF Require Import Lib.ListX Gen.Tables Model.Stats Model.ConverterState Proofs.StatsProofs.
+From Coq Require Import List Arith ZArith Bool String Lia Permutation Sorting.Sorted.
+From PF Require Import Lib.ListX Gen.Tables Model.Ragged Model.Mapper Model.MapperSpec Model.Converter Model.ConverterSpec
+  Proofs.MapperProofs Proofs.ConverterProofs Model.ConverterState.
 Import ListNotations.
+Local Open Scope nat_scope.
+Local Notation length := List.length (only parsing).
 
 (* ------------------------------------------------ facts about the generated tables
    (finite case analysis over the nine stypes; re-checked whenever Gen/Tables.v changes) *)
@@ -200,290 +203,379 @@ Proof.
   - intros s. apply tf_stypes_in_keys.
 Qed.
 
-(* ------------------------------------------------------------- one call *)
-Definition call_result (cfg : config) (d' : dict (list string)) (df : dataframe) : option (dict (list string) * tframe) :=
-  yv <- call_y cfg df ;;
-  fd' <- seq_dict (dmap (map (map_col cfg df)) d') ;;
-  Some (d', {| feats := fd'; y := yv |}).
-
-(* a call = rewrite the state with _merge_feat, then map every listed column with its mapper *)
-Lemma call_char cfg d df : call cfg d df = (d' <- merge_feat d ;; call_result cfg d' df).
+(* ------------------------------------------------------------ gather lemmas *)
+Lemma tgather_length {A} (l : list A) idx r : tgather l idx = Some r -> length r = length idx.
 Proof.
-  unfold call, call_result. rewrite merge_feat_natural.
-  destruct (call_y cfg df) as [yv|]; simpl.
-  - destruct (merge_feat d) as [d'|]; reflexivity.
-  - destruct (merge_feat d); reflexivity.
+  unfold tgather. revert r. induction idx as [|i t IH]; intros r H; simpl in H.
+  - inversion H. reflexivity.
+  - destruct (tget l i); [|discriminate]. destruct (mapM (tget l) t) as [r'|]; [|discriminate].
+    inversion H; subst. simpl. f_equal. now apply IH.
 Qed.
 
-Lemma call_state cfg d df d1 tf : call cfg d df = Some (d1, tf) -> merge_feat d = Some d1.
+Lemma tgather_In {A} (l : list A) idx r x : tgather l idx = Some r -> In x r -> In x l.
 Proof.
-  rewrite call_char. destruct (merge_feat d) as [d'|]; simpl; [|discriminate].
-  unfold call_result. destruct (call_y cfg df); simpl; [|discriminate].
-  destruct (seq_dict _); simpl; [|discriminate]. intros H. inversion H; subst. reflexivity.
+  unfold tgather, tget. revert r. induction idx as [|i t IH]; intros r H Hx; simpl in H.
+  - inversion H; subst. destruct Hx.
+  - destruct (nth_error l i) as [y|] eqn:E; [|discriminate].
+    destruct (mapM (nth_error l) t) as [r'|]; [|discriminate]. inversion H; subst.
+    destruct Hx as [<-|Hx]; [eapply nth_error_In; eauto|eapply IH; eauto].
 Qed.
 
-(* once the state has been rewritten, calling from it is the same as calling from the initial state *)
-Lemma call_from_merged cfg d d1 df : merge_feat d = Some d1 -> call cfg d1 df = call cfg d df.
+Lemma tgather_Forall {A} (P : A -> Prop) (l : list A) idx r : tgather l idx = Some r -> Forall P l -> Forall P r.
 Proof.
-  intros H. rewrite !call_char, H, (merge_feat_idempotent _ _ H). reflexivity.
+  intros H F. rewrite Forall_forall in *. intros x Hx. apply F. eapply tgather_In; eauto.
 Qed.
 
-(* ------------------------------------------------- any sequence of calls *)
-Theorem run_idempotent cfg dfs : forall d,
-  option_map snd (run cfg d dfs) = mapM (fun df => option_map snd (call cfg d df)) dfs.
+Lemma mapM_nth {A B} (f : A -> option B) l r i x :
+  mapM f l = Some r -> nth_error l i = Some x -> exists y, nth_error r i = Some y /\ f x = Some y.
 Proof.
-  induction dfs as [|df r IH]; intros d; simpl; [reflexivity|].
-  destruct (call cfg d df) as [[d1 tf]|] eqn:E; simpl.
-  - pose proof (call_state _ _ _ _ _ E) as M.
-    specialize (IH d1).
-    rewrite (mapM_ext _ (fun df0 => option_map snd (call cfg d df0))) in IH
-      by (intros; now rewrite (call_from_merged cfg d d1 _ M)).
-    rewrite <- IH. destruct (run cfg d1 r) as [[d2 tfs]|]; reflexivity.
-  - destruct (mapM (fun df0 : dataframe => option_map snd (call cfg d df0)) r); reflexivity.
+  revert r i. induction l as [|a t IH]; intros r i H Hx; [destruct i; discriminate|].
+  simpl in H. destruct (f a) as [b|] eqn:E; [|discriminate]. destruct (mapM f t) as [r'|]; [|discriminate].
+  inversion H; subst. destruct i as [|i]; simpl in *.
+  - inversion Hx; subst. now exists b.
+  - eapply IH; eauto.
 Qed.
 
-Theorem run_state cfg dfs : forall d d' tfs,
-  run cfg d dfs = Some (d', tfs) -> dfs <> [] -> merge_feat d = Some d'.
+(* a cell-wise partial function commutes with selection *)
+Lemma mapM_gather {A B} (f : A -> option B) l r idx l' :
+  mapM f l = Some r -> tgather l idx = Some l' ->
+  exists r', tgather r idx = Some r' /\ mapM f l' = Some r'.
 Proof.
-  induction dfs as [|df r IH]; intros d d' tfs H Hne; [congruence|].
-  simpl in H. destruct (call cfg d df) as [[d1 tf]|] eqn:E; simpl in H; [|discriminate].
-  destruct (run cfg d1 r) as [[d2 tfs2]|] eqn:R; simpl in H; [|discriminate].
-  inversion H; subst. pose proof (call_state _ _ _ _ _ E) as M.
-  destruct r as [|df2 r'].
-  - simpl in R. inversion R; subst. exact M.
-  - pose proof (IH d1 d' tfs2 R ltac:(discriminate)) as M2.
-    rewrite (merge_feat_idempotent _ _ M) in M2. inversion M2; subst. exact M.
+  unfold tgather, tget. intros H. revert l'. induction idx as [|i t IH]; intros l' G; simpl in G.
+  - inversion G; subst. now exists [].
+  - destruct (nth_error l i) as [x|] eqn:E; [|discriminate].
+    destruct (mapM (nth_error l) t) as [t'|] eqn:T; [|discriminate]. inversion G; subst.
+    destruct (mapM_nth f l r i x H E) as [y [Hy Fy]]. destruct (IH t' eq_refl) as [r' [Hr Fr]].
+    exists (y :: r'). simpl. now rewrite Hy, Hr, Fy, Fr.
 Qed.
 
-(* --------------------------------------------------------- row locality *)
-Lemma lookup_df_select idx (df df' : dataframe) c :
-  df_select idx df = Some df' ->
-  match df_col df c with
-  | Some col => exists col', tgather col idx = Some col' /\ df_col df' c = Some col'
-  | None => df_col df' c = None
-  end.
-Proof.
-  unfold df_select, df_col. revert df'. induction df as [|[c' col] r IH]; intros df' H; simpl in H.
-  - inversion H; subst. reflexivity.
-  - destruct (tgather col idx) as [col'|] eqn:G; simpl in H; [|discriminate].
-    destruct (mapM _ r) as [r'|] eqn:R; [|discriminate]. inversion H; subst. simpl.
-    destruct (String.eqb c' c).
-    + exists col'. split; [exact G|reflexivity].
-    + apply IH. reflexivity.
-Qed.
+(* ======================================================================== *)
+Section MachineProofs.
+  Context {L Col Enc : Type}.
+  Variable enc_col : string -> list L -> Col -> option (list Enc).
+  Variable col_select : list nat -> Col -> option Col.
 
-Lemma df_col_select idx df df' c :
-  df_select idx df = Some df' -> df_col df' c = (col <- df_col df c ;; tgather col idx).
-Proof.
-  intros H. pose proof (lookup_df_select idx df df' c H) as L.
-  destruct (df_col df c) as [col|]; simpl.
-  - destruct L as [col' [G E]]. now rewrite G, E.
-  - exact L.
-Qed.
+  Notation dataframe := (dataframe L Col).
+  Notation tframe := (tframe Enc).
+  Notation map_col := (map_col enc_col).
+  Notation call_y := (call_y enc_col).
+  Notation call := (call enc_col).
+  Notation run := (run enc_col).
+  Notation df_select := (@df_select L Col col_select).
 
-Lemma map_col_select cfg idx df df' c :
-  df_select idx df = Some df' -> map_col cfg df' c = (col <- map_col cfg df c ;; tgather col idx).
-Proof.
-  intros H. unfold map_col. rewrite (df_col_select idx df df' c H).
-  destruct (lookup (cfg_fits cfg) c) as [f|]; simpl; [|reflexivity].
-  destruct (df_col df c) as [col|]; simpl; [|reflexivity].
-  rewrite tgather_map. destruct (tgather col idx); reflexivity.
-Qed.
+  Definition call_result (target : option string) (d' : dict (list string)) (df : dataframe)
+    : option (dict (list string) * tframe) :=
+    yv <- call_y target df ;;
+    fd' <- seq_dict (dmap (map (map_col df)) d') ;;
+    Some (d', {| feats := fd'; y := yv |}).
 
-Lemma seq_cols_select (G : string -> option (list enc)) idx cols :
-  seq_cols (map (fun c => col <- G c ;; tgather col idx) cols) = (cs <- seq_cols (map G cols) ;; cols_select idx cs).
-Proof.
-  unfold seq_cols, cols_select. rewrite !mapM_map. apply (mapM_bind G (fun col => tgather col idx)).
-Qed.
+  (* a call = rewrite the state with _merge_feat, then map every listed column with its mapper *)
+  Lemma call_char target d df : call target d df = (d' <- merge_feat d ;; call_result target d' df).
+  Proof.
+    unfold ConverterState.call, call_result. rewrite merge_feat_natural.
+    destruct (call_y target df) as [yv|]; simpl.
+    - destruct (merge_feat d) as [d'|]; reflexivity.
+    - destruct (merge_feat d); reflexivity.
+  Qed.
 
-Lemma seq_dict_select (G : string -> option (list enc)) idx (d : dict (list string)) :
-  seq_dict (dmap (map (fun c => col <- G c ;; tgather col idx)) d)
-  = (fd <- seq_dict (dmap (map G) d) ;; feats_select idx fd).
-Proof.
-  unfold seq_dict, feats_select, dmap. rewrite !mapM_map. simpl.
-  rewrite (mapM_ext _ (fun p : stype * list string =>
-                         q <- (cols <- seq_cols (map G (snd p)) ;; Some (fst p, cols)) ;;
-                         (cols' <- cols_select idx (snd q) ;; Some (fst q, cols')))).
-  - apply (mapM_bind (fun p : stype * list string => cols <- seq_cols (map G (snd p)) ;; Some (fst p, cols))
-                     (fun q => cols' <- cols_select idx (snd q) ;; Some (fst q, cols'))).
-  - intros [s cols] _. simpl. rewrite seq_cols_select.
-    destruct (seq_cols (map G cols)); reflexivity.
-Qed.
+  Lemma call_state target d df d1 tf : call target d df = Some (d1, tf) -> merge_feat d = Some d1.
+  Proof.
+    rewrite call_char. destruct (merge_feat d) as [d'|]; simpl; [|discriminate].
+    unfold call_result. destruct (call_y target df); simpl; [|discriminate].
+    destruct (seq_dict _); simpl; [|discriminate]. intros H. inversion H; subst. reflexivity.
+  Qed.
 
-Lemma call_y_select cfg idx df df' :
-  df_select idx df = Some df' -> call_y cfg df' = (yv <- call_y cfg df ;; y_select idx yv).
-Proof.
-  intros H. unfold call_y. destruct (cfg_target cfg) as [t|]; [|reflexivity].
-  rewrite (map_col_select cfg idx df df' t H).
-  pose proof (lookup_df_select idx df df' t H) as L.
-  destruct (df_col df t) as [col|] eqn:D.
-  - destruct L as [col' [G E]]. rewrite E. unfold map_col. rewrite D.
-    destruct (lookup (cfg_fits cfg) t) as [f|]; simpl; [|reflexivity].
-    rewrite tgather_map, G. reflexivity.
-  - rewrite L. reflexivity.
-Qed.
+  (* once the state has been rewritten, calling from it is the same as calling from the initial state *)
+  Lemma call_from_merged target d d1 df : merge_feat d = Some d1 -> call target d1 df = call target d df.
+  Proof. intros H. rewrite !call_char, H, (merge_feat_idempotent _ _ H). reflexivity. Qed.
 
-(* converting a selection of rows = selecting the same rows of the conversion (as options:
-   either both raise or both succeed with equal results) *)
-Theorem call_row_local cfg d idx df df' :
-  df_select idx df = Some df' ->
-  call cfg d df' = (p <- call cfg d df ;; tf' <- tf_select idx (snd p) ;; Some (fst p, tf')).
-Proof.
-  intros H. rewrite !call_char. destruct (merge_feat d) as [d'|]; simpl; [|reflexivity].
-  unfold call_result. rewrite (call_y_select cfg idx df df' H).
-  assert (E : dmap (map (map_col cfg df')) d' =
-              dmap (map (fun c => col <- map_col cfg df c ;; tgather col idx)) d').
-  { unfold dmap. apply map_ext. intros [s cols]. simpl. f_equal. apply map_ext. intros c.
-    apply (map_col_select cfg idx df df' c H). }
-  rewrite E, seq_dict_select. unfold tf_select.
-  destruct (call_y cfg df) as [yv|]; simpl.
-  - destruct (seq_dict (dmap (map (map_col cfg df)) d')) as [fd|]; simpl.
-    + destruct (y_select idx yv) as [yv'|]; simpl.
-      * destruct (feats_select idx fd); reflexivity.
-      * destruct (feats_select idx fd); reflexivity.
-    + destruct (y_select idx yv); reflexivity.
-  - reflexivity.
-Qed.
+  Theorem run_idempotent target dfs : forall d,
+    option_map snd (run target d dfs) = mapM (fun df => option_map snd (call target d df)) dfs.
+  Proof.
+    induction dfs as [|df r IH]; intros d; simpl; [reflexivity|].
+    destruct (call target d df) as [[d1 tf]|] eqn:E; simpl.
+    - pose proof (call_state _ _ _ _ _ E) as M.
+      specialize (IH d1).
+      rewrite (mapM_ext _ (fun df0 => option_map snd (call target d df0))) in IH
+        by (intros; now rewrite (call_from_merged target d d1 _ M)).
+      rewrite <- IH. destruct (run target d1 r) as [[d2 tfs]|]; reflexivity.
+    - destruct (mapM (fun df0 : dataframe => option_map snd (call target d df0)) r); reflexivity.
+  Qed.
 
-(* ------------------------------------- the selected conversion also succeeds *)
-Lemma mapM_some_iff {A B} (f : A -> option B) l :
-  (exists l', mapM f l = Some l') <-> (forall x, In x l -> exists y, f x = Some y).
-Proof.
-  induction l as [|x r IH]; simpl.
-  - split; [intros _ x []|intros _; now exists []].
-  - split.
-    + intros [l' H]. destruct (f x) as [y|] eqn:E; [|discriminate].
-      destruct (mapM f r) as [ys|] eqn:R; [|discriminate].
-      intros z [<-|Hz]; [now exists y|]. apply IH; [now exists ys|exact Hz].
-    + intros H. destruct (H x (or_introl eq_refl)) as [y E]. rewrite E.
-      destruct (proj2 IH (fun z Hz => H z (or_intror Hz))) as [ys R]. rewrite R. now exists (y :: ys).
-Qed.
+  Theorem run_state target dfs : forall d d' tfs,
+    run target d dfs = Some (d', tfs) -> dfs <> [] -> merge_feat d = Some d'.
+  Proof.
+    induction dfs as [|df r IH]; intros d d' tfs H Hne; [congruence|].
+    simpl in H. destruct (call target d df) as [[d1 tf]|] eqn:E; simpl in H; [|discriminate].
+    destruct (run target d1 r) as [[d2 tfs2]|] eqn:R; simpl in H; [|discriminate].
+    inversion H; subst. pose proof (call_state _ _ _ _ _ E) as M.
+    destruct r as [|df2 r'].
+    - simpl in R. inversion R; subst. exact M.
+    - pose proof (IH d1 d' tfs2 R ltac:(discriminate)) as M2.
+      rewrite (merge_feat_idempotent _ _ M) in M2. inversion M2; subst. exact M.
+  Qed.
 
-Lemma seq_dict_some_iff (D : dict (list (option (list enc)))) :
-  (exists fd, seq_dict D = Some fd) <->
-  (forall s cols oc, In (s, cols) D -> In oc cols -> exists col, oc = Some col).
-Proof.
-  unfold seq_dict. split.
-  - intros H0. pose proof (proj1 (mapM_some_iff _ _) H0) as H. clear H0.
-    intros s cols oc Hp Hoc. destruct (H (s, cols) Hp) as [q E]. simpl in E.
-    destruct (seq_cols cols) as [cs|] eqn:S; [|discriminate].
-    assert (Hs : exists l', mapM (fun c : option (list enc) => c) cols = Some l') by (now exists cs).
-    destruct (proj1 (mapM_some_iff _ _) Hs oc Hoc) as [col Ec]. now exists col.
-  - intros H. apply (proj2 (mapM_some_iff _ _)). intros [s cols] Hp. simpl.
-    assert (Hs : exists l', seq_cols cols = Some l').
-    { apply (proj2 (mapM_some_iff _ _)). intros oc Hoc. destruct (H s cols oc Hp Hoc) as [col ->]. now exists col. }
-    destruct Hs as [cs ->]. now exists (s, cs).
-Qed.
+  (* ------------------------------------------------------------------- target *)
+  Theorem no_target_no_y target d df d1 tf :
+    call target d df = Some (d1, tf) ->
+    (target = None \/ exists t, target = Some t /\ df_col df t = None) ->
+    y tf = None.
+  Proof.
+    intros C H. rewrite call_char in C. destruct (merge_feat d) as [d'|]; simpl in C; [|discriminate].
+    unfold call_result in C.
+    assert (Y : call_y target df = Some None).
+    { unfold ConverterState.call_y. destruct H as [->|[t [-> ->]]]; reflexivity. }
+    rewrite Y in C. simpl in C. destruct (seq_dict _); simpl in C; [|discriminate]. inversion C; reflexivity.
+  Qed.
 
-Theorem call_select_succeeds cfg d idx df df' d1 tf :
-  df_select idx df = Some df' -> call cfg d df = Some (d1, tf) ->
-  exists tf', tf_select idx tf = Some tf' /\ call cfg d df' = Some (d1, tf').
-Proof.
-  intros H C. pose proof (call_row_local cfg d idx df df' H) as R. rewrite C in R. simpl in R.
-  assert (S : exists r, call cfg d df' = Some r).
-  { pose proof (call_state _ _ _ _ _ C) as M. rewrite call_char, M in C. rewrite call_char, M. simpl in *.
-    unfold call_result in *.
-    destruct (call_y cfg df) as [yv|] eqn:Y; simpl in C; [|discriminate].
-    destruct (seq_dict (dmap (map (map_col cfg df)) d1)) as [fd|] eqn:S; simpl in C; [|discriminate].
-    (* y *)
-    assert (Y' : exists yv', call_y cfg df' = Some yv').
-    { unfold call_y in *. destruct (cfg_target cfg) as [t|]; [|now exists None].
-      pose proof (lookup_df_select idx df df' t H) as L.
+  Theorem target_present_y target d df d1 tf t col :
+    call target d df = Some (d1, tf) -> target = Some t -> df_col df t = Some col ->
+    exists enc, enc_col t (df_index df) col = Some enc /\ y tf = Some enc.
+  Proof.
+    intros C Ht Hc. rewrite call_char in C. destruct (merge_feat d) as [d'|]; simpl in C; [|discriminate].
+    unfold call_result in C. unfold ConverterState.call_y in C. rewrite Ht, Hc in C.
+    unfold ConverterState.map_col in C at 1. rewrite Hc in C. simpl in C.
+    destruct (enc_col t (df_index df) col) as [enc|]; simpl in C; [|discriminate].
+    destruct (seq_dict _); simpl in C; [|discriminate]. inversion C; subst. exists enc. split; reflexivity.
+  Qed.
+
+  (* -------------------------------------------------------------- row locality *)
+  Lemma lookup_df_select idx (df df' : dataframe) c :
+    df_select idx df = Some df' ->
+    tgather (df_index df) idx = Some (df_index df') /\
+    match df_col df c with
+    | Some col => exists col', col_select idx col = Some col' /\ df_col df' c = Some col'
+    | None => df_col df' c = None
+    end.
+  Proof.
+    unfold ConverterState.df_select, df_col. destruct df as [ix cols]. simpl.
+    destruct (tgather ix idx) as [ix'|]; simpl; [|discriminate].
+    destruct (mapM _ cols) as [cols'|] eqn:Mc; simpl; [|discriminate].
+    intros H. inversion H; subst df'; clear H. simpl. split; [reflexivity|].
+    revert cols' Mc. induction cols as [|[c0 col0] r IH]; intros cols' Mc; simpl in Mc.
+    - inversion Mc; subst. reflexivity.
+    - destruct (col_select idx col0) as [col0'|] eqn:G; simpl in Mc; [|discriminate].
+      destruct (mapM _ r) as [r'|] eqn:R; [|discriminate]. inversion Mc; subst. simpl.
+      destruct (String.eqb c0 c).
+      + exists col0'. split; [exact G|reflexivity].
+      + apply IH. reflexivity.
+  Qed.
+
+  (* what row locality needs of the per-column mappers.  `ok` collects the conditions on a
+     column under which its mapper is row-wise (index as long as the column, statistics
+     well-formed, ...); the empty selection is excluded (several mappers raise on it) *)
+  Definition rowwise (ok : string -> list L -> Col -> Prop) : Prop :=
+    forall c ix col enc idx ix' col',
+      ok c ix col -> enc_col c ix col = Some enc -> idx <> [] ->
+      tgather ix idx = Some ix' -> col_select idx col = Some col' ->
+      exists enc', tgather enc idx = Some enc' /\ enc_col c ix' col' = Some enc'.
+
+  Lemma seq_cols_pointwise (G G' : string -> option (list Enc)) idx cols cs :
+    (forall c enc, G c = Some enc -> exists enc', tgather enc idx = Some enc' /\ G' c = Some enc') ->
+    seq_cols (map G cols) = Some cs ->
+    exists cs', cols_select idx cs = Some cs' /\ seq_cols (map G' cols) = Some cs'.
+  Proof.
+    intros K. unfold seq_cols, cols_select. revert cs. induction cols as [|c r IH]; intros cs H; simpl in H.
+    - inversion H; subst. now exists [].
+    - destruct (G c) as [enc|] eqn:E; [|discriminate].
+      destruct (mapM (fun c0 => c0) (map G r)) as [r'|] eqn:R; [|discriminate]. inversion H; subst.
+      destruct (K c enc E) as [enc' [Ge Ge']]. destruct (IH r' eq_refl) as [cs' [H1 H2]].
+      exists (enc' :: cs'). simpl. now rewrite Ge, H1, Ge', H2.
+  Qed.
+
+  Lemma seq_dict_pointwise (G G' : string -> option (list Enc)) idx (d : dict (list string)) fd :
+    (forall c enc, G c = Some enc -> exists enc', tgather enc idx = Some enc' /\ G' c = Some enc') ->
+    seq_dict (dmap (map G) d) = Some fd ->
+    exists fd', feats_select idx fd = Some fd' /\ seq_dict (dmap (map G') d) = Some fd'.
+  Proof.
+    intros K. unfold seq_dict, feats_select, dmap. revert fd. induction d as [|[s cols] r IH]; intros fd H; simpl in H.
+    - inversion H; subst. now exists [].
+    - destruct (seq_cols (map G cols)) as [cs|] eqn:E; simpl in H; [|discriminate].
+      destruct (mapM _ (map _ r)) as [r'|] eqn:R; [|discriminate]. inversion H; subst.
+      destruct (seq_cols_pointwise G G' idx cols cs K E) as [cs' [H1 H2]].
+      destruct (IH r' eq_refl) as [fd' [H3 H4]].
+      exists ((s, cs') :: fd'). simpl. rewrite H1, H2. simpl. now rewrite H3, H4.
+  Qed.
+
+  (* converting a non-empty selection of rows succeeds whenever converting the frame does, and
+     gives exactly the selected rows of that conversion -- for mappers that are row-wise *)
+  Theorem call_select_rowwise ok target d idx df df' d1 tf :
+    rowwise ok -> idx <> [] ->
+    (forall c col, df_col df c = Some col -> ok c (df_index df) col) ->
+    df_select idx df = Some df' -> call target d df = Some (d1, tf) ->
+    exists tf', tf_select idx tf = Some tf' /\ call target d df' = Some (d1, tf').
+  Proof.
+    intros RW Hne Hok S C. pose proof (call_state _ _ _ _ _ C) as M.
+    rewrite call_char, M in C. rewrite call_char, M. simpl in *. unfold call_result in *.
+    assert (K : forall c enc, map_col df c = Some enc ->
+                              exists enc', tgather enc idx = Some enc' /\ map_col df' c = Some enc').
+    { intros c enc Hc. unfold ConverterState.map_col in *.
+      destruct (lookup_df_select idx df df' c S) as [Hix Hl].
+      destruct (df_col df c) as [col|] eqn:D; simpl in Hc; [|discriminate].
+      destruct Hl as [col' [G E]]. rewrite E. simpl.
+      exact (RW c (df_index df) col enc idx (df_index df') col' (Hok c col D) Hc Hne Hix G). }
+    destruct (call_y target df) as [yv|] eqn:Y; simpl in C; [|discriminate].
+    destruct (seq_dict (dmap (map (map_col df)) d1)) as [fd|] eqn:Sd; simpl in C; [|discriminate].
+    inversion C; subst tf; clear C.
+    destruct (seq_dict_pointwise (map_col df) (map_col df') idx d1 fd K Sd) as [fd' [F1 F2]].
+    assert (Y' : exists yv', y_select idx yv = Some yv' /\ call_y target df' = Some yv').
+    { unfold ConverterState.call_y in *. destruct target as [t|]; [|inversion Y; subst; now exists None].
+      destruct (lookup_df_select idx df df' t S) as [_ Hl].
       destruct (df_col df t) as [col|] eqn:D.
-      - destruct L as [col' [G E]]. rewrite E. unfold map_col in *. rewrite D in Y. rewrite E.
-        destruct (lookup (cfg_fits cfg) t) as [f|]; simpl in *; [|discriminate]. eexists; reflexivity.
-      - rewrite L. now exists None. }
-    destruct Y' as [yv' ->]. simpl.
-    assert (S' : exists fd', seq_dict (dmap (map (map_col cfg df')) d1) = Some fd').
-    { apply seq_dict_some_iff. intros s cols oc Hp Hoc.
-      unfold dmap in Hp. apply in_map_iff in Hp. destruct Hp as [[s0 names] [Ep Hn]]. simpl in Ep.
-      inversion Ep; subst s cols; clear Ep. apply in_map_iff in Hoc. destruct Hoc as [c [<- Hc]].
-      assert (Sd : exists fd0, seq_dict (dmap (map (map_col cfg df)) d1) = Some fd0) by (now exists fd).
-      destruct (proj1 (seq_dict_some_iff _) Sd s0 (map (map_col cfg df) names) (map_col cfg df c)) as [col Ec].
-      - unfold dmap. apply in_map_iff. now exists (s0, names).
-      - apply in_map_iff. now exists c.
-      - unfold map_col in *. destruct (lookup (cfg_fits cfg) c) as [f|]; simpl in *; [|discriminate].
-        pose proof (lookup_df_select idx df df' c H) as L.
-        destruct (df_col df c) as [rawc|]; simpl in Ec; [|discriminate].
-        destruct L as [col' [G E]]. rewrite E. simpl. eexists; reflexivity. }
-    destruct S' as [fd' ->]. simpl. eexists; reflexivity. }
-  destruct S as [[d2 tf2] S]. rewrite S in R.
-  destruct (tf_select idx tf) as [tf'|]; simpl in R; [|discriminate].
-  inversion R; subst. exists tf'. split; [reflexivity|exact S].
+      - destruct Hl as [col' [G E]]. rewrite E.
+        destruct (map_col df t) as [enc|] eqn:Mt; simpl in Y; [|discriminate]. inversion Y; subst yv.
+        destruct (K t enc Mt) as [enc' [Ge Ge']]. exists (Some enc'). simpl. now rewrite Ge, Ge'.
+      - rewrite Hl. inversion Y; subst. now exists None. }
+    destruct Y' as [yv' [Y1 Y2]].
+    exists {| feats := fd'; y := yv' |}. unfold ConverterState.tf_select. simpl.
+    rewrite F1, Y1, Y2, F2. split; reflexivity.
+  Qed.
+End MachineProofs.
+
+(* ======================================================================== *)
+(* The pipeline mappers of Model/Mapper.v ARE row-wise: derived from the C01 theorems
+   (each pipeline = map canonical_cell), not from their definition *)
+Lemma attach_len f col rc : attach f col = Some rc -> rawcol_len rc = fcol_len col.
+Proof.
+  destruct f, col; simpl; intros H; inversion H; subst; simpl; try reflexivity. apply map_length.
+Qed.
+
+Definition pipeline_ok {L} (fits : list (string * col_fit)) (c : string) (ix : list L) (col : fcol) : Prop :=
+  length ix = fcol_len col /\
+  forall f rc, lookup fits c = Some f -> attach f col = Some rc -> rawcol_ok rc.
+
+Lemma combine_ne {A B} (a : list A) (b : list B) : length a = length b -> b <> [] -> combine a b <> [].
+Proof. destruct a, b; simpl; intros; congruence. Qed.
+
+Theorem pipeline_rowwise {L} (leqb : L -> L -> bool) fits :
+  leqb_refl leqb -> rowwise (pipeline_col leqb fits) fcol_select (pipeline_ok fits).
+Proof.
+  intros Hr c ix col enc idx ix' col' [Hlen Hok] He Hne Gix Gc. unfold pipeline_col in *.
+  destruct (lookup fits c) as [f|] eqn:Lf; simpl in *; [|discriminate].
+  destruct (attach f col) as [rc|] eqn:A; simpl in He; [|discriminate].
+  destruct (encode_col leqb ix rc) as [e|] eqn:E; simpl in He; [|discriminate].
+  destruct e as [cells|]; simpl in He; [|discriminate]. inversion He; subst enc; clear He.
+  pose proof (Hok f rc eq_refl A) as Ok.
+  assert (Hl : length ix = rawcol_len rc) by (rewrite (attach_len _ _ _ A); exact Hlen).
+  pose proof (encode_col_canonical leqb ix rc cells Hr Hl Ok E) as Can.
+  pose proof (tgather_length _ _ _ Gix) as Lix.
+  destruct f, col; simpl in A; inversion A; subst rc; clear A; simpl in Gc;
+    match type of Gc with option_map _ (tgather ?l idx) = _ =>
+      destruct (tgather l idx) as [sel|] eqn:G; simpl in Gc; [|discriminate] end;
+    inversion Gc; subst col'; clear Gc; simpl attach; cbn [obind];
+    pose proof (tgather_length _ _ _ G) as Ls;
+    assert (Lc : length ix' = length sel) by congruence.
+  - (* numerical *)
+    simpl in Can. subst cells. simpl. rewrite numerical_faithful, ser_values_combine_eq by exact Lc.
+    exists (map canon_num sel). rewrite tgather_map, G. split; reflexivity.
+  - (* categorical *)
+    simpl in Can, Ok. subst cells. simpl.
+    rewrite categorical_faithful, ser_values_combine_eq by assumption.
+    exists (map (canon_cat cats) sel). rewrite tgather_map, G. split; reflexivity.
+  - (* multicategorical *)
+    simpl in Can. destruct Ok as (-> & ND & Hm & Ht).
+    destruct (mapM_gather _ _ _ _ _ Can G) as [sp' [Gs Ms]].
+    assert (Ht' : Forall (tokens_ok sep) (ser_values (combine ix' sel)))
+      by (rewrite ser_values_combine_eq by exact Lc; eapply tgather_Forall; eauto).
+    assert (Ms' : mapM (canon_multi cats sep) (ser_values (combine ix' sel)) = Some sp')
+      by (rewrite ser_values_combine_eq by exact Lc; exact Ms).
+    destruct (multicategorical_faithful_sorted cats sep (combine ix' sel) sp' ND Hm Ht' Ms') as [enc2 [E2 S2]].
+    simpl. rewrite E2. simpl. exists sp'. split; [exact Gs|now rewrite S2].
+  - (* sequence *)
+    simpl in Can. destruct (mapM_gather _ _ _ _ _ Can G) as [sp' [Gs Ms]].
+    simpl. rewrite (sequence_faithful leqb (combine ix' sel) sp' Hr)
+      by (rewrite ser_values_combine_eq by exact Lc; exact Ms).
+    simpl. exists sp'. split; [exact Gs|reflexivity].
+  - (* timestamp *)
+    simpl in Can. subst cells. simpl. rewrite timestamp_faithful, ser_values_combine_eq by exact Lc.
+    exists (map canon_time sel). rewrite tgather_map, G. split; reflexivity.
+  - (* embedding *)
+    simpl in Can, Ok. subst cells. destruct Ok as [w Hw].
+    assert (Hsel : sel <> []) by (intros ->; simpl in Ls; destruct idx; [congruence|discriminate]).
+    simpl. rewrite (embedding_faithful (combine ix' sel) w)
+      by (try apply combine_ne; try assumption; rewrite ser_values_combine_eq by exact Lc; eapply tgather_Forall; eauto).
+    rewrite ser_values_combine_eq by exact Lc. simpl.
+    exists (map canon_vec sel). rewrite tgather_map, G. split; reflexivity.
+  - (* opaque (user callable): ids carried as one-entry vectors *)
+    simpl in Can. subst cells.
+    assert (Hsel : sel <> []) by (intros ->; simpl in Ls; destruct idx; [congruence|discriminate]).
+    set (v := fun i : Z => [NFin i]) in *.
+    assert (Lc' : length ix' = length (map v sel)) by (rewrite map_length; exact Lc).
+    simpl. rewrite (embedded_faithful (combine ix' (map v sel)) 1).
+    + rewrite ser_values_combine_eq by exact Lc'. simpl.
+      exists (map canon_vec (map v sel)). rewrite !tgather_map, G. split; reflexivity.
+    + apply combine_ne; [exact Lc'|]. destruct sel; [congruence|discriminate].
+    + rewrite ser_values_combine_eq by exact Lc'. apply Forall_forall. intros x Hx.
+      apply in_map_iff in Hx. destruct Hx as [i [<- _]]. reflexivity.
+Qed.
+
+(* the conditions are inherited by every selection, so selections can be iterated *)
+Lemma pipeline_ok_select {L} fits c (ix ix' : list L) col col' idx :
+  pipeline_ok fits c ix col -> tgather ix idx = Some ix' -> fcol_select idx col = Some col' ->
+  pipeline_ok fits c ix' col'.
+Proof.
+  intros [Hlen Hok] Gix Gc. pose proof (tgather_length _ _ _ Gix) as Lix.
+  destruct col; simpl in Gc;
+    match type of Gc with option_map _ (tgather ?l idx) = _ =>
+      destruct (tgather l idx) as [sel|] eqn:G; simpl in Gc; [|discriminate] end;
+    inversion Gc; subst col'; clear Gc; pose proof (tgather_length _ _ _ G) as Ls;
+    (split; [simpl; congruence|]); intros f rc Lf A;
+    destruct f; simpl in A; inversion A; subst rc; clear A; simpl; try exact I;
+    match goal with
+    | |- _ => specialize (Hok _ _ Lf eq_refl); simpl in Hok
+    end.
+  - exact Hok.
+  - destruct Hok as (H1 & H2 & H3 & H4). repeat split; auto. eapply tgather_Forall; eauto.
+  - destruct Hok as [w Hw]. exists w. eapply tgather_Forall; eauto.
+  - exists 1. apply Forall_forall. intros x Hx. apply in_map_iff in Hx. destruct Hx as [i [<- _]]. reflexivity.
+Qed.
+
+(* the concrete statement for the converter built from the pipelines *)
+Theorem pcall_select fits target d idx (df df' : pdataframe) d1 tf :
+  idx <> [] ->
+  (forall c col, df_col df c = Some col -> pipeline_ok fits c (df_index df) col) ->
+  pdf_select idx df = Some df' -> pcall fits target d df = Some (d1, tf) ->
+  exists tf', tf_select idx tf = Some tf' /\ pcall fits target d df' = Some (d1, tf').
+Proof.
+  intros Hne Hok S C.
+  eapply (call_select_rowwise (pipeline_col Nat.eqb fits) fcol_select (pipeline_ok fits)); eauto.
+  apply pipeline_rowwise. intros a. apply Nat.eqb_refl.
 Qed.
 
 (* ------------------------------------------------- unseen values, aliasing *)
-Lemma unseen_category cats v : ~ In v cats -> apply_fit (FitCat cats) (RCat (Some v)) = ECat (-1).
+(* through the modelled categorical pipeline a cell becomes its position in the fitted category
+   list; an unseen value or a missing cell becomes -1 (Props/C01.v, theorems category_index_seen etc.) *)
+Theorem pipeline_categorical {L} (leqb : L -> L -> bool) fits c cats (ix : list L) cells :
+  lookup fits c = Some (FitCat cats) -> NoDup cats -> length ix = length cells ->
+  pipeline_col leqb fits c ix (FCat cells) = Some (map (canon_cat cats) cells).
 Proof.
-  intros H. simpl. unfold encode_cat. apply index_of_none in H. now rewrite H.
+  intros Lf ND Hl. unfold pipeline_col. rewrite Lf. simpl.
+  now rewrite categorical_faithful, ser_values_combine_eq by assumption.
 Qed.
 
-Lemma missing_category cats : apply_fit (FitCat cats) (RCat None) = ECat (-1).
-Proof. reflexivity. Qed.
+Lemma canon_cat_unseen cats v : ~ In v cats -> canon_cat cats (Some v) = [SInt (-1)].
+Proof. intros H. unfold canon_cat. now rewrite index_of_unseen. Qed.
 
-(* whatever non-negative index comes out IS that listed category: no aliasing *)
-Lemma category_no_alias cats v i :
-  apply_fit (FitCat cats) (RCat (Some v)) = ECat (Z.of_nat i) -> nth_error cats i = Some v.
+Lemma canon_cat_no_alias cats v k :
+  canon_cat cats (Some v) = [SInt (Z.of_nat k)] -> nth_error cats k = Some v.
 Proof.
-  simpl. unfold encode_cat. destruct (index_of cats v) as [k|] eqn:E.
-  - intros H. inversion H as [H']. apply Nat2Z.inj in H'. subst. now apply index_of_nth.
-  - intros H. inversion H as [H']. lia.
+  unfold canon_cat. intros H. inversion H as [H']. destruct (in_dec pval_eq_dec v cats) as [Hi|Hn].
+  - destruct (index_of_seen cats v Hi) as [_ Hn]. rewrite H', Nat2Z.id in Hn. exact Hn.
+  - rewrite (index_of_unseen cats v Hn) in H'. lia.
 Qed.
 
-Lemma insertZ_In x l z : In z (insertZ x l) <-> z = x \/ In z l.
+(* through the modelled multicategorical pipeline (observed sorted) a cell becomes the ascending
+   set of the positions of those of its tokens that are fitted categories: unseen tokens are left out *)
+Theorem pipeline_multicategorical {L} (leqb : L -> L -> bool) fits c cats sep (ix : list L) cells canon :
+  lookup fits c = Some (FitMulti cats sep) -> NoDup cats -> ~ In (VInt (-1)) cats ->
+  Forall (tokens_ok sep) cells -> length ix = length cells ->
+  mapM (canon_multi cats sep) cells = Some canon ->
+  pipeline_col leqb fits c ix (FMulti true cells) = Some canon.
 Proof.
-  induction l as [|y r IH]; simpl; [intuition|].
-  destruct (x <=? y)%Z; simpl; [intuition|]. rewrite IH. intuition.
-Qed.
-
-Lemma sortZ_In l z : In z (sortZ l) <-> In z l.
-Proof.
-  unfold sortZ. induction l as [|x r IH]; simpl; [tauto|]. rewrite insertZ_In, IH. intuition.
-Qed.
-
-(* a multicategorical cell is encoded as exactly the indices of those of its tokens that are
-   listed; unseen tokens are left out, and every index present stands for a token of the cell *)
-Theorem multicat_tokens cats toks z :
-  In z (encode_multi cats (Some toks)) <->
-  exists t i, In t toks /\ nth_error cats i = Some t /\ index_of cats t = Some i /\ z = Z.of_nat i.
-Proof.
-  unfold encode_multi. rewrite sortZ_In, in_flat_map. split.
-  - intros [t [Ht Hz]]. rewrite dedup_In in Ht. destruct (index_of cats t) as [i|] eqn:E; [|destruct Hz].
-    destruct Hz as [<-|[]]. exists t, i. split; [exact Ht|]. split; [now apply index_of_nth|]. split; reflexivity || exact E.
-  - intros [t [i [Ht [_ [E ->]]]]]. exists t. split; [rewrite dedup_In; exact Ht|]. rewrite E. now left.
-Qed.
-
-Corollary multicat_unseen_dropped cats toks :
-  (forall t, In t toks -> ~ In t cats) -> apply_fit (FitMulti cats) (RMulti (Some toks)) = EMulti [].
-Proof.
-  intros H. unfold apply_fit. f_equal. destruct (encode_multi cats (Some toks)) as [|z r] eqn:E; [reflexivity|].
-  exfalso. assert (Hz : In z (encode_multi cats (Some toks))) by (rewrite E; now left).
-  apply multicat_tokens in Hz. destruct Hz as [t [i [Ht [Hn _]]]].
-  apply (H t Ht). eapply nth_error_In; eauto.
-Qed.
-
-(* ------------------------------------------------------------------- target *)
-Theorem no_target_no_y cfg d df d1 tf :
-  call cfg d df = Some (d1, tf) ->
-  (cfg_target cfg = None \/ exists t, cfg_target cfg = Some t /\ df_col df t = None) ->
-  y tf = None.
-Proof.
-  intros C H. rewrite call_char in C. destruct (merge_feat d) as [d'|]; simpl in C; [|discriminate].
-  unfold call_result in C.
-  assert (Y : call_y cfg df = Some None).
-  { unfold call_y. destruct H as [->|[t [-> ->]]]; reflexivity. }
-  rewrite Y in C. simpl in C. destruct (seq_dict _); simpl in C; [|discriminate]. inversion C; reflexivity.
-Qed.
-
-Theorem target_present_y cfg d df d1 tf t col f :
-  call cfg d df = Some (d1, tf) -> cfg_target cfg = Some t -> df_col df t = Some col ->
-  lookup (cfg_fits cfg) t = Some f -> y tf = Some (map (apply_fit f) col).
-Proof.
-  intros C Ht Hc Hf. rewrite call_char in C. destruct (merge_feat d) as [d'|]; simpl in C; [|discriminate].
-  unfold call_result in C.
-  assert (Y : call_y cfg df = Some (Some (map (apply_fit f) col))).
-  { unfold call_y. rewrite Ht, Hc. unfold map_col. rewrite Hf, Hc. reflexivity. }
-  rewrite Y in C. simpl in C. destruct (seq_dict _); simpl in C; [|discriminate]. inversion C; reflexivity.
+  intros Lf ND Hm Ht Hl Hc. unfold pipeline_col. rewrite Lf. simpl.
+  destruct (multicategorical_faithful_sorted cats sep (combine ix cells) canon ND Hm) as [enc [E S]];
+    try (rewrite ser_values_combine_eq by exact Hl; assumption).
+  rewrite E. simpl. now rewrite S.
 Qed.
 
 (* ------------------------------------------ supplied statistics = recomputed *)
@@ -517,7 +609,7 @@ Proof.
   now rewrite orb_false_r.
 Qed.
 
-Lemma fit_of_stat_emb_updated s cs w : fit_of_stat s (emb_updated cs w) = fit_of_stat s cs.
+Lemma fit_of_stat_emb_updated s sep cs w : fit_of_stat s sep (emb_updated cs w) = fit_of_stat s sep cs.
 Proof.
   destruct s; simpl; try reflexivity; rewrite has_key_emb_updated_other by discriminate; reflexivity.
 Qed.
@@ -621,8 +713,8 @@ Proof.
   - intros H c. inversion H; subst. destruct (lookup st' c); [now left|reflexivity].
 Qed.
 
-Lemma fits_of_updated width cts st d st' :
-  update_col_stats width st d = Some st' -> fits_of cts st' = fits_of cts st.
+Lemma fits_of_updated width cts seps st d st' :
+  update_col_stats width st d = Some st' -> fits_of cts seps st' = fits_of cts seps st.
 Proof.
   intros H. unfold fits_of. apply mapM_ext. intros [c s] _. simpl.
   pose proof (update_col_stats_rel width st d st' H c) as R.
@@ -642,17 +734,17 @@ Qed.
 
 (* materialize(col_stats = the statistics a previous materialize produced) gives the same
    statistics, the same converter state and the same TensorFrame as recomputing them *)
-Theorem materialize_supplied_equiv cts target compute width df st d tf :
+Theorem materialize_supplied_equiv cts seps target compute width df st d tf :
   validate_stats cts (compute df) = true ->          (* compute_col_stats returns every required statistic (C03) *)
-  materialize cts target compute width None df = Some (st, d, tf) ->
-  materialize cts target compute width (Some st) df = Some (st, d, tf).
+  materialize cts seps target compute width None df = Some (st, d, tf) ->
+  materialize cts seps target compute width (Some st) df = Some (st, d, tf).
 Proof.
   intros V H. unfold materialize in *. simpl in H.
-  destruct (fits_of cts (compute df)) as [fits|] eqn:F; simpl in H; [|discriminate].
-  destruct (call _ (init_names cts target) df) as [[d1 tf1]|] eqn:C; simpl in H; [|discriminate].
+  destruct (fits_of cts seps (compute df)) as [fits|] eqn:F; simpl in H; [|discriminate].
+  destruct (pcall fits target (init_names cts target) df) as [[d1 tf1]|] eqn:C; simpl in H; [|discriminate].
   destruct (update_col_stats width (compute df) d1) as [st1|] eqn:U; simpl in H; [|discriminate].
   inversion H; subst st1 d1 tf1; clear H.
   rewrite (validate_updated width cts _ _ _ U V). simpl.
-  rewrite (fits_of_updated width cts _ _ _ U), F. simpl. rewrite C. simpl.
+  rewrite (fits_of_updated width cts seps _ _ _ U), F. simpl. rewrite C. simpl.
   rewrite (update_col_stats_idem width _ _ _ U). reflexivity.
 Qed.
